@@ -21,6 +21,14 @@ def jobs(tier):
     lv.count_funcs = {'pre_lor_expr', 'pre_land_expr', 'pre_or_expr', 'pre_xor_expr', 'pre_and_expr', 'pre_eq_expr', 'pre_rel_expr', 'pre_sh_expr',
                       'pre_add_expr', 'pre_mul_expr'}
     J.append(lv)
+    cc = Job('paste.concat', 'harness/c09_concat.c', 'h_concat', defines={'NDEBUG': None}, unwind=10, no_standard_checks=True, object_bits=11,
+             ops=[('rename_def', 'token_concat', 'token_concat__real', 'vp_model_token_concat'), ('rename_def', 'new_token', 'new_token__real', 'vp_model_new_token')],
+             solver='cadical', timeout=600, incdirs=[REPO + '/c2mir'], kind='bounded',
+             bound='one ## between two operands (each a token or a placemarker) with optional spaces, one neighbour token on each side',
+             scope=['token_concat', 'new_token', 'memmove'])
+    cc.count_funcs = {'do_concat', 'del_tokens'}
+    cc.strict_reach = False
+    J.append(cc)
     return J
 
 
@@ -34,4 +42,4 @@ def pj(o, x):
         return j
 
 
-META = {'functions': ['eval (c2mir.c #if evaluator)', 'eval_binop_operands', 'pre_lor_expr', 'pre_land_expr', 'pre_or_expr', 'pre_xor_expr', 'pre_and_expr', 'pre_eq_expr', 'pre_rel_expr', 'pre_sh_expr', 'pre_add_expr', 'pre_mul_expr'], 'undecided_part': '', 'trusted_base': ['spec/pp_eval.h (C11 6.10.1, 6.6)']}
+META = {'functions': ['eval (c2mir.c #if evaluator)', 'eval_binop_operands', 'pre_lor_expr', 'pre_land_expr', 'pre_or_expr', 'pre_xor_expr', 'pre_and_expr', 'pre_eq_expr', 'pre_rel_expr', 'pre_sh_expr', 'pre_add_expr', 'pre_mul_expr', 'do_concat', 'del_tokens'], 'undecided_part': '', 'trusted_base': ['spec/pp_eval.h (C11 6.10.1, 6.6)']}
